@@ -360,6 +360,25 @@ def main():
                     disc += 1
                 else:
                     recs.append(r)
+        for _ in range(job.get("count", 0) // 4):
+            # ends a hair OUTSIDE a multiple of the step (1e-7 .. 1e-10 of a step: far above float noise, far below the units of
+            # the records): such an end must go out to the NEXT multiple, not "snap" to the one just inside the domain
+            m = rng.choice([5, 10, 10, 20])
+            step0 = rng.choice([1, 2, 5]) * 10.0 ** rng.randint(-3, 4)
+            a = rng.randint(-30, 30)
+            b = a + m + rng.randint(-2, 2)
+            if b <= a:
+                b = a + 3
+            eps = step0 * rng.choice([3e-7, 1e-8, 2e-10])
+            lo = a * step0 - (eps if rng.random() < 0.7 else 0.0)
+            hi = b * step0 + (eps if rng.random() < 0.7 else 0.0)
+            d0, d1 = (lo, hi) if rng.random() < 0.7 else (hi, lo)
+            for fn in (ticks_record, nice_record):
+                r = fn(d0, d1, m)
+                if r is None:
+                    disc += 1
+                else:
+                    recs.append(r)
         for _ in range(job.get("count", 0) // 3):
             # far from zero: spans down to a millionth of the end points' magnitude (the small-span edge of the quantifier),
             # where tick labels need 7-9 significant digits
